@@ -19,6 +19,8 @@ pub enum Stdin {
     Bytes(Vec<u8>),
     /// chunk, pause in microseconds before the next one; EOF after the last
     Chunks(Vec<(Vec<u8>, u64)>),
+    /// stdin opened on this path (a file, a directory, a device)
+    Path(String),
 }
 
 #[derive(Debug, Clone)]
@@ -72,11 +74,17 @@ pub struct Opts<'a> {
     pub cwd: Option<&'a str>,
     pub env: Vec<(String, String)>,
     pub timeout_ms: u64,
+    /// stdout opened on this path for writing (e.g. /dev/full) instead of a pipe
+    pub stdout_path: Option<String>,
 }
 
 impl<'a> Opts<'a> {
     pub fn new(args: Vec<String>) -> Self {
-        Opts { args, stdin: Stdin::Null, cwd: None, env: vec![], timeout_ms: 20_000 }
+        Opts { args, stdin: Stdin::Null, cwd: None, env: vec![], timeout_ms: 20_000, stdout_path: None }
+    }
+    pub fn stdout_to(mut self, p: &str) -> Self {
+        self.stdout_path = Some(p.to_string());
+        self
     }
     pub fn stdin(mut self, s: Stdin) -> Self {
         self.stdin = s;
@@ -98,11 +106,27 @@ pub fn run(o: Opts) -> Run {
     if let Some(d) = o.cwd {
         cmd.current_dir(d);
     }
-    cmd.stdout(Stdio::piped()).stderr(Stdio::piped());
-    match o.stdin {
+    cmd.stderr(Stdio::piped());
+    match o.stdout_path.as_ref().and_then(|p| std::fs::OpenOptions::new().write(true).open(p).ok()) {
+        Some(f) => {
+            cmd.stdout(Stdio::from(f));
+        }
+        None => {
+            cmd.stdout(Stdio::piped());
+        }
+    }
+    match &o.stdin {
         Stdin::Null => {
             cmd.stdin(Stdio::null());
         }
+        Stdin::Path(p) => match std::fs::File::open(p) {
+            Ok(f) => {
+                cmd.stdin(Stdio::from(f));
+            }
+            Err(_) => {
+                cmd.stdin(Stdio::null());
+            }
+        },
         _ => {
             cmd.stdin(Stdio::piped());
         }
@@ -128,14 +152,16 @@ pub fn run(o: Opts) -> Run {
                     }
                 }
             }
-            Stdin::Null => {}
+            Stdin::Null | Stdin::Path(_) => {}
         })
     });
-    let mut so = child.stdout.take().unwrap();
+    let so = child.stdout.take();
     let mut se = child.stderr.take().unwrap();
     let t_out = std::thread::spawn(move || {
         let mut b = Vec::new();
-        let _ = so.read_to_end(&mut b);
+        if let Some(mut so) = so {
+            let _ = so.read_to_end(&mut b);
+        }
         b
     });
     let t_err = std::thread::spawn(move || {
